@@ -202,6 +202,32 @@ func (t *ftr) fmtConcat(format string, args []ast.Expr) (string, bool, bool) {
 	return "(" + strings.Join(parts, " ++ ") + ")", p, true
 }
 
+func (t *ftr) hasExtra(name string) bool {
+	for _, xp := range t.sp.extra {
+		if xp.name == name {
+			return true
+		}
+	}
+	return false
+}
+
+// crossPkg: pkg.F(...) naming a translated function of another package
+func (t *ftr) crossPkg(fun ast.Expr) (*doneFn, string, bool) {
+	sel, ok := fun.(*ast.SelectorExpr)
+	if !ok {
+		return nil, "", false
+	}
+	id, ok := sel.X.(*ast.Ident)
+	if !ok || t.lookup(id.Name) != nil {
+		return nil, "", false
+	}
+	d, ok := t.funcs[id.Name+"."+sel.Sel.Name]
+	if !ok || id.Name == t.sp.pkg {
+		return nil, "", false
+	}
+	return d, sel.Sel.Name, true
+}
+
 // anyArg: is parameter i of the translated function `name` declared `any` in Go?
 func (t *ftr) anyArg(name string, i int) bool {
 	if d, ok := t.funcs[t.sp.pkg+"."+name]; ok {
@@ -442,6 +468,9 @@ func (t *ftr) fxCall(e ast.Expr) (*fxRes, bool) {
 				outs: []string{"st:" + ps.field}, results: d.rets, partial: d.partial}, true
 		}
 	}
+	if d, fname, ok := t.crossPkg(c.Fun); ok && (d.spec.fx != "" || len(d.spec.inout) > 0) {
+		return t.fxTranslated(fname, d, c), true
+	}
 	// a translated function with effects or in-out parameters
 	if id, ok := c.Fun.(*ast.Ident); ok && t.lookup(id.Name) == nil {
 		if d, ok := t.funcs[t.sp.pkg+"."+id.Name]; ok && (d.spec.fx != "" || len(d.spec.inout) > 0) {
@@ -672,6 +701,12 @@ func (t *ftr) ioExpr(e ast.Expr, hint *ty) (ex, bool) {
 				return ex{t.ln(id.Name), tDecls, false}, true
 			}
 		}
+		if id, ok := e.X.(*ast.Ident); ok && id.Name == "difflib" && t.lookup("difflib") == nil {
+			// the tag constants: an iota block in declaration order
+			if v, ok := difflibTags[e.Sel.Name]; ok && t.difflibTagsOK() {
+				return ex{fmt.Sprintf("(%d : Int)", v), tInt, false}, true
+			}
+		}
 		if id, ok := e.X.(*ast.Ident); ok && id.Name == "colors" && t.lookup("colors") == nil {
 			switch e.Sel.Name {
 			case "Yellow", "Green", "Red", "Dim", "BoldWhite", "RedBg", "GreenBG", "Reddiff", "Greendiff":
@@ -801,6 +836,43 @@ func (t *ftr) ioExpr(e ast.Expr, hint *ty) (ex, bool) {
 	case *ast.CallExpr:
 		if x, ok := t.matcherMethod(e); ok {
 			return x, true
+		}
+		if d, fname, ok := t.crossPkg(e.Fun); ok && d.spec.fx == "" && len(d.spec.inout) == 0 {
+			var lead []string
+			for _, xp := range d.spec.extra {
+				if !t.hasExtra(xp.name) {
+					t.fail("call of %s needs parameter %s", fname, xp.name)
+					return ex{}, true
+				}
+				lead = append(lead, xp.name)
+			}
+			a, p, ok := t.args(fname, e, d.params)
+			if !ok {
+				return ex{}, true
+			}
+			s := d.ns() + leanDefName(fname) + " " + strings.Join(append(lead, a...), " ")
+			if d.partial {
+				t.partial = true
+				return ex{"(← " + s + ")", nestedPair(d.rets), true}, true
+			}
+			return ex{"(" + s + ")", nestedPair(d.rets), p}, true
+		}
+		if selName(e.Fun) == "difflib.NewMatcher" && len(e.Args) == 2 {
+			// the matcher is determined by the two sequences; its only use is GetGroupedOpCodes
+			a, b2 := t.expr(e.Args[0]), t.expr(e.Args[1])
+			if t.err == nil && a.t.k == "texts" && b2.t.k == "texts" && !a.p && !b2.p {
+				return ex{"(" + a.s + ", " + b2.s + ")", tSeqM, false}, true
+			}
+			t.fail("unsupported difflib.NewMatcher call")
+			return ex{}, true
+		}
+		if id, m, c, ok := recvCall(e); ok && m == "GetGroupedOpCodes" && len(c.Args) == 1 {
+			if vt := t.lookup(id.Name); vt != nil && vt.k == "seqm" && t.hasExtra("groupedOpCodes") {
+				n := t.exprH(c.Args[0], tInt)
+				if t.err == nil && n.t.k == "int" && !n.p {
+					return ex{"(groupedOpCodes " + t.ln(id.Name) + ".1 " + t.ln(id.Name) + ".2 " + n.s + ")", tOpGs, false}, true
+				}
+			}
 		}
 		name := selName(e.Fun)
 		if id, m, c, ok := recvCall(e); ok && t.lookup(id.Name) != nil && t.lookup(id.Name).k == "gres" && len(c.Args) == 0 {
@@ -1295,8 +1367,9 @@ func (t *ftr) ioStmt(b *strings.Builder, ind string, st ast.Stmt, res *ty) bool 
 				return true
 			}
 		}
-		// colors.Fprint(&sb, colour, text): NO_COLOR rendering appends the text
-		if c, ok := s.X.(*ast.CallExpr); ok && selName(c.Fun) == "colors.Fprint" && len(c.Args) == 3 {
+		// colors.Fprint(&sb, colour, text): NO_COLOR rendering appends the text (functions that carry a
+		// `nocolor` parameter call the transliterated colors functions instead)
+		if c, ok := s.X.(*ast.CallExpr); ok && selName(c.Fun) == "colors.Fprint" && len(c.Args) == 3 && !t.hasExtra("nocolor") {
 			if id, ok := c.Args[0].(*ast.Ident); ok && t.builder[id.Name] {
 				// the writer parameter itself
 				x := t.expr(c.Args[2])
@@ -1316,6 +1389,37 @@ func (t *ftr) ioStmt(b *strings.Builder, ind string, st ast.Stmt, res *ty) bool 
 			}
 			t.stmtFail(b, ind, "unsupported colors.Fprint %s", t.src(s.X))
 			return true
+		}
+		// io.WriteString(w, s) / fmt.Fprintf(w, …) with w the writer parameter
+		if c, ok := s.X.(*ast.CallExpr); ok && len(c.Args) >= 2 {
+			if id, ok := c.Args[0].(*ast.Ident); ok && t.builder[id.Name] && t.lookup(id.Name) != nil {
+				switch selName(c.Fun) {
+				case "io.WriteString":
+					if len(c.Args) == 2 {
+						x := t.expr(c.Args[1])
+						if t.err == nil && x.t.k == "text" && !x.p {
+							fmt.Fprintf(b, "%s%s := %s ++ %s\n", ind, t.ln(id.Name), t.ln(id.Name), x.s)
+							return true
+						}
+					}
+				case "fmt.Fprintf":
+					if format, ok := t.stringLit(c.Args[1]); ok {
+						txt, p, ok := t.fmtConcat(format, c.Args[2:])
+						if ok && !p {
+							fmt.Fprintf(b, "%s%s := %s ++ %s\n", ind, t.ln(id.Name), t.ln(id.Name), txt)
+							return true
+						}
+						if ok && p {
+							// an operand can panic (s[:len(s)-1]): evaluate it first
+							t.tmp++
+							v := fmt.Sprintf("x_%d", t.tmp)
+							fmt.Fprintf(b, "%slet %s := %s\n%s%s := %s ++ %s\n", ind, v, txt, ind, t.ln(id.Name), t.ln(id.Name), v)
+							return true
+						}
+						return true
+					}
+				}
+			}
 		}
 		// Fprintf into a builder
 		if c, ok := s.X.(*ast.CallExpr); ok && selName(c.Fun) == "fmt.Fprintf" && len(c.Args) >= 2 {
@@ -1682,6 +1786,43 @@ func (t *ftr) matcherMethod(e *ast.CallExpr) (ex, bool) {
 		return ex{"(← " + s + ")", nestedPair(d.rets), true}, true
 	}
 	return ex{"(" + s + ")", nestedPair(d.rets), p}, true
+}
+
+var difflibTags = map[string]int{"OpEqual": 0, "OpInsert": 1, "OpDelete": 2, "OpReplace": 3}
+
+// difflibTagsOK: internal/difflib still declares `OpEqual int8 = iota; OpInsert; OpDelete; OpReplace`
+// in that order in one const block
+func (t *ftr) difflibTagsOK() bool {
+	d, ok := t.funcs["difflib.FormatRangeUnified"]
+	_ = d
+	if !ok || allPkgs["difflib"] == nil {
+		t.fail("package difflib is not available")
+		return false
+	}
+	for _, f := range allPkgs["difflib"].files {
+		for _, dd := range f.Decls {
+			gd, ok := dd.(*ast.GenDecl)
+			if !ok || gd.Tok != token.CONST {
+				continue
+			}
+			var names []string
+			for _, sp := range gd.Specs {
+				for _, n := range sp.(*ast.ValueSpec).Names {
+					names = append(names, n.Name)
+				}
+			}
+			if len(names) > 0 && names[0] == "OpEqual" {
+				vs := gd.Specs[0].(*ast.ValueSpec)
+				if strings.Join(names, ",") == "OpEqual,OpInsert,OpDelete,OpReplace" && len(vs.Values) == 1 && selName(vs.Values[0]) == "iota" {
+					return true
+				}
+				t.fail("the tag constants of internal/difflib changed: %v", names)
+				return false
+			}
+		}
+	}
+	t.fail("the tag constants of internal/difflib were not found")
+	return false
 }
 
 // exprMulti: an expression in a position that receives n values
